@@ -183,22 +183,23 @@ def run_bounds(pid, tier):
     return res.finish()
 
 
-def tlaps_proofs():
-    """tlapm on spec/LoopAbsProofs.tla; a failing or unavailable prover is a tool error (the proof is about the
+def tlaps_proofs(module="LoopAbsProofs", needs=("LoopAbs.tla",),
+                 theorems=("InvHolds", "Bounded: passes <= |first worklist| + X + 1")):
+    """tlapm on spec/<module>.tla; a failing or unavailable prover is a tool error (the proof is about the
     abstract specification only, it cannot be a violation of pyxis)."""
     import re, shutil
     from .common import SPEC, ToolError
-    d = fresh_dir("run", "tlaps")
-    for f in ("LoopAbs.tla", "LoopAbsProofs.tla"):
+    d = fresh_dir("run", "tlaps-" + module)
+    for f in tuple(needs) + (module + ".tla",):
         shutil.copy(os.path.join(SPEC, f), d)
     t = time.time()
-    p = subprocess.run(["timeout", "900", "tlapm", "--threads", "8", "--cache-dir", os.path.join(d, "cache"), "LoopAbsProofs.tla"],
+    p = subprocess.run(["timeout", "900", "tlapm", "--threads", "8", "--cache-dir", os.path.join(d, "cache"), module + ".tla"],
                        cwd=d, stdout=subprocess.PIPE, stderr=subprocess.STDOUT, text=True)
     m = re.search(r"All (\d+) obligations proved", p.stdout)
     if not m:
-        raise ToolError("tlapm did not prove LoopAbsProofs.tla: " + p.stdout[-600:])
-    return {"module": "LoopAbsProofs", "obligations_proved": int(m.group(1)), "wall_s": round(time.time() - t, 1),
-            "theorems": ["InvHolds", "Bounded: passes <= |first worklist| + X + 1"]}
+        raise ToolError(f"tlapm did not prove {module}.tla: " + p.stdout[-600:])
+    return {"module": module, "obligations_proved": int(m.group(1)), "wall_s": round(time.time() - t, 1),
+            "theorems": list(theorems)}
 
 
 PARSE_ERRORS = {
